@@ -473,7 +473,22 @@ impl Runner {
             },
         }
     }
-    fn canary(&mut self) -> Result<(), String> {
+    /// Ok(true): (+ 1 2) is 3. Ok(false): it is not, but ((lambda (x) x) 3) still is 3 - the evaluated
+    /// text may legitimately have rebound the global `+` (`lambda` cannot be rebound), so this is no verdict.
+    fn canary(&mut self) -> Result<bool, String> {
+        match self.canary_plus() {
+            Ok(()) => Ok(true),
+            Err(k) => {
+                let forms = parse_forms("((lambda (x) x) 3)");
+                let vm = &mut self.vm;
+                match catch(|| vm.eval(&forms[0])) {
+                    Ok(Ok(Cell::Number(n))) if format!("{}", n) == "3" => Ok(false),
+                    _ => Err(k),
+                }
+            }
+        }
+    }
+    fn canary_plus(&mut self) -> Result<(), String> {
         let forms = parse_forms("(+ 1 2)");
         let vm = &mut self.vm;
         match catch(|| vm.eval(&forms[0])) {
@@ -589,8 +604,13 @@ fn run_case(r: &mut Runner, c: &Case, rep: &mut Report, id: (u64, u64), verbose:
                 "value" => rep.count("values_returned", 1),
                 _ => rep.count("read_errors", 1),
             }
-            if let Err(k) = r.canary() {
-                rep.violation(&format!("{}:bad={}", sig_head, k.split(':').next().unwrap_or("vm-unusable")), format!("after {} the VM no longer evaluates (+ 1 2): {}", src_shown.chars().take(300).collect::<String>(), k), wit(), id);
+            let can = r.canary();
+            if let Err(k) = can {
+                rep.violation(&format!("{}:bad={}", sig_head, k.split(':').next().unwrap_or("vm-unusable")), format!("after {} the VM evaluates neither (+ 1 2) nor ((lambda (x) x) 3): {}", src_shown.chars().take(300).collect::<String>(), k), wit(), id);
+                r.reset();
+            } else if can == Ok(false) {
+                // e.g. the text contained (set! + -865): start over with a fresh VM
+                rep.count("canary_global_rebound_by_the_text", 1);
                 r.reset();
             } else {
                 rep.count("canaries_ok", 1);
